@@ -13,6 +13,7 @@ import (
 	"sort"
 	"strings"
 	"testing"
+	"time"
 
 	"github.com/go-spring/log"
 	"pgregory.net/rapid"
@@ -89,11 +90,11 @@ type logger struct {
 }
 
 type cfg struct {
-	Loggers []logger
+	Loggers  []logger
 	Root     bool
 	RootKind string // Logger | AsyncLogger: the configured root is started and stopped like every other logger
 	RootRaw  string // tags attribute on root (fault)
-	Fault   string
+	Fault    string
 }
 
 func renderTags(t *rapid.T, tags []string, label string) string {
@@ -306,10 +307,18 @@ func TestC02_Routing(t *testing.T) {
 				log.Destroy()
 				t.Fatalf("VERIF-VIOLATION C02: Refresh failed on a conflict-free configuration (round %d): panic=%v err=%v\nconfig: %s", round, p, firstLine(err), c.desc())
 			}
-			for i, n := range names {
-				log.Info(context.Background(), registered[n], log.Int("id", i))
+			// a logging call that never returns (a logger that serves the tag but was never started)
+			// would wedge the whole run: it is a verdict of its own
+			if done, p := vk.Within(20*time.Second, func() {
+				for i, n := range names {
+					log.Info(context.Background(), registered[n], log.Int("id", i))
+				}
+				log.Destroy()
+			}); !done {
+				vk.HardFail("TestC02_Routing", map[string]any{"config": c.desc(), "round": round}, "C02: a logging call (or the Destroy after it) did not return within 20 s under a conflict-free configuration: a tag is bound to a logger that is not running\nconfig: %s", c.desc())
+			} else if p != nil {
+				t.Fatalf("VERIF-VIOLATION C02: a logging call panicked under a conflict-free configuration (round %d): %v\nconfig: %s", round, p, c.desc())
 			}
-			log.Destroy()
 			// where did each tag's event go?
 			where := map[string][]string{}
 			for rn, r := range vk.AllRecs() {
